@@ -26,6 +26,7 @@ type FImg struct {
 	FLen                                          int64
 	WellFormed                                    bool // satisfies the theorems' hypotheses (WF, Placed)
 	BadMagicVersion                               bool
+	TableBehind                                   bool // the descriptor table lies behind the data section: outside the theorems' hypotheses (tabRegion)
 }
 
 func (f *FImg) lines(path string) []string {
@@ -63,6 +64,10 @@ func (g *Gen) genForeign() *FImg {
 	f.DOff = pick(r, []int64{128, 200, 4096, 4096, 4097})
 	f.DSize = 585*int64(n) + int64(pick(r, []int{0, 0, 7, 585, 1000}))
 	f.DataOff = f.DOff + f.DSize + int64(pick(r, []int{0, 0, 592, 13}))
+	if r.Chance(1, 12) {
+		f.TableBehind, f.WellFormed = true, false
+		f.DataOff = int64(pick(r, []int{128, 128, 512, 4096}))
+	}
 	// choose used slots and unique IDs not tied to slot order
 	ids := []uint32{}
 	for len(ids) < n {
@@ -143,12 +148,29 @@ func (g *Gen) genForeign() *FImg {
 	}
 	f.DataSize = cur - f.DataOff + int64(pick(r, []int{0, 0, 0, 100}))
 	f.FLen = cur
+	if f.TableBehind {
+		// the descriptor table lies behind the data section (a writer that appends its index)
+		f.DOff = cur + int64(pick(r, []int{0, 3, 585, 4096}))
+		f.DSize = 585*int64(n) + int64(pick(r, []int{0, 0, 7}))
+		f.FLen = f.DOff + f.DSize
+		g.count("foreign:table-behind-data")
+	}
 	// leftover bytes in unused slots
 	for i, u := range used {
 		if !u && r.Chance(1, 2) {
 			f.Descs[i] = FDesc{Used: false, DT: pick(r, dataTypes), ID: uint32(r.Intn(9)), GID: uint32(r.U64()), Link: uint32(r.U64()),
 				Off: int64(r.Intn(100000)), Size: int64(r.Intn(1000)), SizePad: int64(r.Intn(1000)), CT: int64(r.Intn(1 << 30)), MT: int64(r.Intn(1 << 30)),
 				UID: int64(r.Intn(3)), GIDow: int64(r.Intn(3)), Name: r.Bytes(r.Intn(129)), Extra: r.Bytes(r.Intn(385))}
+			if r.Chance(1, 3) {
+				// what a writer that frees a slot by clearing only its in-use flag leaves behind: the
+				// whole descriptor of a former primary system partition
+				ex := make([]byte, 11)
+				ex[0], ex[4] = byte(1+r.Intn(5)), 2
+				copy(ex[8:], pick(r, archCodes))
+				f.Descs[i].DT, f.Descs[i].Extra = 0x4004, ex
+				f.Descs[i].GID = 0xf0000000 | 1
+				g.count("foreign:unused-slot-holds-a-former-primary-partition")
+			}
 			if r.Chance(1, 4) {
 				// the loader accepts anything in a slot that is not in use
 				f.Descs[i].Off = -int64(1 + r.Intn(100000))
